@@ -186,6 +186,13 @@ def fresh_typed(E, st, typ, name):
         if m.group(1) == 'bytearray':
             return st.alloc(HObj('bytearray', items=v))
         return v
+    m = re.match(r'^(bytes|memoryview)<(\d+)>$', t)
+    if m:
+        # exactly N bytes given as N individual symbolic bytes: the length is syntactic, so code that iterates over the
+        # string (`for x in key`) can be unrolled
+        n = int(m.group(2))
+        units = [z3.Unit(E.fresh(BV8, '%s_%d' % (name, i))) for i in range(n)]
+        return SBytes(z3.Empty(BYTES) if n == 0 else units[0] if n == 1 else z3.Concat(*units), m.group(1))
     if t == 'bytearray':
         return st.alloc(HObj('bytearray', items=E.fresh_bytes(name)))
     if t == 'str':
@@ -540,7 +547,8 @@ def sf_bytes_all(E, st, args, kw):
 def sf_nth(E, st, args, kw):
     """nth(s, i): the i-th byte as an int, total (no IndexError): for spec use under a range hypothesis"""
     s, i = args
-    return [('val', st, mk_int(z3.BV2Int(zbytes(s)[zint(i)])))]
+    from .ops import byte_int
+    return [('val', st, mk_int(byte_int(E, st, zbytes(s)[zint(i)])))]
 
 
 def sf_ite(E, st, args, kw):
@@ -964,6 +972,21 @@ def lemma_contract(reg, qualname, params, opaque=(), options=None, requires=()):
                             opaque=opaque, options=dict(options or {}, spec_target=True)))
 
 
+def _path_base_is_none(E, st, path):
+    """some proper prefix of the path (self.a.b of self.a.b.c.f) is None in state st"""
+    parts = path.split('.')
+    for k in range(1, len(parts)):
+        try:
+            r = list(E.ev(ast.parse('.'.join(parts[:k]), mode='eval').body, st.fork(), []))
+        except Unsupported:
+            return False
+        if len(r) == 1 and r[0][1] is None:
+            return True
+        if len(r) != 1:
+            return False
+    return False
+
+
 def _eval_path_base(E, st, path):
     base, fld = path.rsplit('.', 1)
     sink = []
@@ -989,7 +1012,15 @@ def _havoc_paths(E, st, paths):
             if v is None and path in st.frame.env:
                 continue        # an optional buffer argument that is None at this call (`output=None`): nothing to modify
             raise Unsupported('modifies target %s' % path)
-        ref, fld = _eval_path_base(E, st, path)
+        try:
+            ref, fld = _eval_path_base(E, st, path)
+        except Unsupported as ex:
+            if str(ex).endswith(' of None') or _path_base_is_none(E, st, path):
+                # an optional object on the path is None at this call (e.g. `self._hash2._state...` before hash2 exists): the
+                # location does not exist in the caller's state, so there is nothing to havoc (an object the callee stores
+                # there later is reached through the havocked field that holds it)
+                continue
+            raise
         h = st.heap[ref.oid]
         cc = None
         if typ is None:
@@ -1005,7 +1036,7 @@ def _havoc_paths(E, st, paths):
             for tn, v in cur.alts:
                 alts2.append((tn, v if (v is ABSENT or v is None) else havoc_value(E, v, fld, st)))
             h.fields[fld] = make_lazy(E, st, alts2, fld)
-        elif typ is None and cur is None and cc is not None and (cc.fields.get(fld) or cc.fields.get(fld + '?')):
+        elif typ is None and (cur is None or isinstance(cur, Ref)) and cc is not None and (cc.fields.get(fld) or cc.fields.get(fld + '?')):
             ft = cc.fields.get(fld) or cc.fields.get(fld + '?')
             alts2 = [((o if isinstance(o, str) else repr(o[1])), fresh_typed(E, st, o, fld)) for o in split_union(ft)]
             h.fields[fld] = make_lazy(E, st, alts2, fld)
